@@ -243,6 +243,22 @@ def run_batch(ctx, kind, seed, muts, aux=(), label="", expect_err_on_truncate=Fa
                     site = ov["frames"][0]["file"]
                     text = core.source_line(site, ov["frames"][0]["line"])
                 sig = dict(kind=fl["kind"], entry=entry)
+                if fl["kind"] == "cpu" and fl["value"] < 20 * fl["budget"]:
+                    # CPU time includes kernel time (page faults, file-system work), which a heavily loaded machine inflates several
+                    # times over: a reading above the budget counts only if it reproduces when the case runs again on its own
+                    again = []
+                    for _ in range(2):
+                        r2 = ctx.call("fault.batch", kind, files[0], files[1], prog, 0, work, *aux, limit=None, timeout=900)
+                        if r2.outcome == "ok" and r2.value.get("n") == 1:
+                            again.append(r2.value["max_cpu_us"])
+                            if again[-1] <= fl["budget"]:
+                                break
+                        else:
+                            break
+                    if again and min(again) <= fl["budget"]:
+                        ctx.note("CPU reading above the budget not reproduced when the case ran alone (machine load): %s %s" % (ctx.variant, entry))
+                        continue
+                    fl = dict(fl, rerun_cpu_us=again)
                 if fl["kind"] == "alloc":
                     sig.update(file=site, line_text=text)
                 if fl["kind"] == "residual":
